@@ -2371,11 +2371,12 @@ class Run:
     def assign(self, target, v):
         fr = self.frames[-1]
         if isinstance(target, ast.Name):
-            if isinstance(v, (EmptyContainer, PyTuple)):
-                c_ = CONTRACTS.get(fr.qname)
-                lt = getattr(c_, "locals", None) if c_ is not None else None
-                if lt and target.id in lt:
-                    v = self.coerce(v, lt[target.id])
+            c_ = CONTRACTS.get(fr.qname)
+            lt = getattr(c_, "locals", None) if c_ is not None else None
+            if lt and target.id in lt and (isinstance(v, (EmptyContainer, PyTuple)) or (isinstance(v, SV) and v.ty != lt[target.id])):
+                # a declared static type of a local: container literals become containers of that type, and a local that
+                # holds None or a value (Optional[...]) is kept at its declared optional type on every path
+                v = self.coerce(v, lt[target.id])
             fr.env[target.id] = v
             return
         if isinstance(target, (ast.Tuple, ast.List)):
@@ -2545,6 +2546,16 @@ class Run:
         self.alloc0_shift(bump)
         return entry_env, set(mods), head_before
 
+    def check_loop_local_types(self, entry_env):
+        """The arbitrary iteration starts with every loop-carried local at the static type it had on loop entry (e.g. a
+        local initialised to None is None). That is only sound if the type is the same again at the back edge; a body
+        that re-binds such a local to a value of another type and keeps iterating is outside the subset."""
+        fr = self.frames[-1]
+        for nme, v0 in entry_env.items():
+            v1 = fr.env.get(nme)
+            if isinstance(v0, SV) and isinstance(v1, SV) and v0.ty != v1.ty:
+                raise Reject("loop-carried local %s changes its static type across iterations (%s -> %s)" % (nme, v0.ty, v1.ty))
+
     def check_loop_frame(self, havoced, head_after_havoc):
         """Arrays not havoced at the loop head must not change for objects that existed at the head: either they
         are syntactically untouched, or (e.g. temporaries such as a comprehension's list) an obligation shows the
@@ -2649,6 +2660,7 @@ class Run:
                 lemmas_at(i, "break")
                 return  # continue after the loop with the state at the break
             self.check_loop_frame(havoced, head)
+            self.check_loop_local_types(entry_env)
             lemmas_at(i, "end")
             if cont is not None:
                 # python raises RuntimeError when a dict/set changes size during iteration
@@ -2700,6 +2712,7 @@ class Run:
                 self.check_loop_frame(havoced, head)
                 return
             self.check_loop_frame(havoced, head)
+            self.check_loop_local_types(entry_env)
             inv_at("preserved", False)
             if measure0 is not None:
                 L = LoopCtx(None, None, fr.env, entry_env, head_before, "while")
